@@ -7,6 +7,7 @@
 import CB.Props.C06
 import CB.Lemmas.GenBitsChoice
 import CB.Lemmas.GenChainsCmp
+import CB.Lemmas.GenCmpMore
 namespace CB.P06G
 open CB
 
@@ -138,5 +139,66 @@ example : Gen.Chains.Uint.lt 2 [0#64, 1#64] [1#64, 1#64] = ~~~0#64 := by decide
 example : Gen.Chains.Uint.eq 2 [5#64, 1#64] [5#64, 1#64] = ~~~0#64 := by decide
 example : Gen.Chains.Uint.is_nonzero 2 [0#64, 4#64] = ~~~0#64 := by decide
 
+/-! ## T06.G3 — the SOURCE of `Uint::{is_odd, cmp, cmp_vartime}`, regenerated on every run
+(tools/translate.py → CB/Gen/CmpMore.lean: src/uint/cmp.rs)
+
+`core::cmp::Ordering` and the `i8` of `Uint::cmp` are a `BitVec 8` (the discriminant: `Less = -1`, `Equal = 0`, `Greater = 1`),
+read with `BitVec.toInt`.  `cmp_vartime` is a `loop` that is left only by `return` (early, at the first differing limb from the
+top, or with `Equal` when the counter is 0): translated by structural recursion on the counter.  (`Uint` has no `const fn`
+swap: `ct_swap` / `conditional_swap` live in the non-const trait impls of src/traits.rs, outside the translated subset.) -/
+
+/-- the hand-written model of `is_odd`, `cmp`, `cmp_vartime` (what `uint_is_odd_spec`, `uint_cmp_spec`, `uint_cmp_coherent` of
+    CB/Props/C06.lean are proved about) IS the translated source, for every limb count -/
+theorem cmp_more_model_is_translated_source (a b : List (BitVec 64)) (h : a.length = b.length) :
+    isOdd (GenChains.nats a) = (Gen.CmpMore.Uint.is_odd a.length a).toNat ∧
+    ucmp (GenChains.nats a) (GenChains.nats b) = (Gen.CmpMore.Uint.cmp a.length a b).toInt ∧
+    ucmpVartime (GenChains.nats a) (GenChains.nats b) = (Gen.CmpMore.Uint.cmp_vartime a.length a b).toInt ∧
+    (∀ x y : BitVec 64, Gen.CmpMore.Limb.eq_vartime x y = (x == y)) :=
+  ⟨GenCmpMore.isOdd_bridge a, GenCmpMore.ucmp_bridge a b h, GenCmpMore.ucmpVartime_bridge a b h, GenBits.cm_limb_eq_vartime_eq⟩
+
+/-- the TRANSLATED `Uint::cmp`: the three-way order of the values as -1 / 0 / 1 -/
+theorem src_uint_cmp_exact (a b : List (BitVec 64)) (h : a.length = b.length) :
+    (Gen.CmpMore.Uint.cmp a.length a b).toInt = cmp3 (val (GenChains.nats a)) (val (GenChains.nats b)) := by
+  have hl : (GenChains.nats a).length = (GenChains.nats b).length := by
+    rw [GenChains.nats_length, GenChains.nats_length, h]
+  rw [← GenCmpMore.ucmp_bridge a b h]
+  exact (P06.uint_cmp_spec (GenChains.nats_WF a) (GenChains.nats_WF b) hl).1
+
+/-- the TRANSLATED `Uint::cmp_vartime`: the `Ordering` it returns is `compare (val a) (val b)`; it agrees with `Uint::cmp` -/
+theorem src_uint_cmp_vartime_exact (a b : List (BitVec 64)) (h : a.length = b.length) :
+    (Gen.CmpMore.Uint.cmp_vartime a.length a b).toInt = cmp3 (val (GenChains.nats a)) (val (GenChains.nats b)) ∧
+    Gen.CmpMore.Uint.cmp_vartime a.length a b =
+      (match compare (val (GenChains.nats a)) (val (GenChains.nats b)) with
+        | .lt => -1#8 | .eq => 0#8 | .gt => 1#8) ∧
+    Gen.CmpMore.Uint.cmp_vartime a.length a b = Gen.CmpMore.Uint.cmp a.length a b := by
+  have hl : (GenChains.nats a).length = (GenChains.nats b).length := by
+    rw [GenChains.nats_length, GenChains.nats_length, h]
+  have hs := P06.uint_cmp_spec (GenChains.nats_WF a) (GenChains.nats_WF b) hl
+  have e1 : (Gen.CmpMore.Uint.cmp_vartime a.length a b).toInt = cmp3 (val (GenChains.nats a)) (val (GenChains.nats b)) := by
+    rw [← GenCmpMore.ucmpVartime_bridge a b h, hs.2, hs.1]
+  refine ⟨e1, ?_, BitVec.eq_of_toInt_eq (by rw [e1, src_uint_cmp_exact a b h])⟩
+  apply BitVec.eq_of_toInt_eq
+  rw [e1]
+  unfold cmp3
+  rcases Nat.lt_trichotomy (val (GenChains.nats a)) (val (GenChains.nats b)) with hlt | heq | hgt
+  · rw [Nat.compare_eq_lt.mpr hlt, if_pos hlt]; decide
+  · rw [Nat.compare_eq_eq.mpr heq, if_neg (by omega), if_pos heq]; decide
+  · rw [Nat.compare_eq_gt.mpr hgt, if_neg (by omega), if_neg (by omega)]; decide
+
+/-- the TRANSLATED `Uint::is_odd`: truthy exactly when the value is odd (`LIMBS ≥ 1`: the source reads `limbs[0]`) -/
+theorem src_uint_is_odd_exact (a : List (BitVec 64)) (hne : a ≠ []) :
+    Gen.CmpMore.Uint.is_odd a.length a = GenBits.ofBool (decide (val (GenChains.nats a) % 2 = 1)) := by
+  apply BitVec.eq_of_toNat_eq
+  rw [GenBits.ofBool_toNat, ← GenCmpMore.isOdd_bridge a]
+  cases a with
+  | nil => exact absurd rfl hne
+  | cons x xs => exact P06.uint_is_odd_spec (toNat_lt_B x)
+
+/-- evaluation: the translated functions run (three limbs; the top limbs are equal, the middle limb decides) -/
+example : Gen.CmpMore.Uint.cmp_vartime 3 [9#64, 1#64, 7#64] [0#64, 2#64, 7#64] = -1#8 := by decide
+example : Gen.CmpMore.Uint.cmp_vartime 3 [9#64, 2#64, 7#64] [0#64, 2#64, 7#64] = 1#8 := by decide
+example : Gen.CmpMore.Uint.cmp_vartime 2 [5#64, 1#64] [5#64, 1#64] = 0#8 := by decide
+example : Gen.CmpMore.Uint.cmp 3 [9#64, 1#64, 7#64] [0#64, 2#64, 7#64] = -1#8 := by decide
+example : Gen.CmpMore.Uint.is_odd 2 [5#64, 0#64] = ~~~0#64 := by decide
 
 end CB.P06G
